@@ -64,10 +64,10 @@ theorem Ref.bind {S T : Subst → Prop} {st : State} {r : Res State} {f : State 
       intro γ ⟨a, b, c⟩
       exact h2' γ ⟨(h1.2.2 γ).2 ⟨a, b⟩, c⟩
     | fuel => trivial
-    | panic s => trivial
+    | panic s => rw [hf] at h2'; exact h2'
   | fail => intro γ ⟨a, b, _⟩; exact h1 γ ⟨a, b⟩
   | fuel => trivial
-  | panic s => trivial
+  | panic s => exact h1
 
 theorem Ref.congr {S T : Subst → Prop} {st : State} {r : Res State} (h : Ref I S st r)
     (hST : ∀ γ, Sem I γ st → (S γ ↔ T γ)) : Ref I T st r := by
@@ -317,7 +317,7 @@ theorem resolveStorable_sem {st : State} {x : Nat} {d : FD} (hI : IOK I st) (w :
       refine ⟨by rw [hσ0]; exact hbo.1, ?_, ?_, by rw [hs0]; exact w.nodist⟩
       · rw [hd0]; exact (List.Sublist.map (fun q : Nat × FD => q.1) List.filter_sublist).nodup w.dnodup
       · intro p hp; rw [hd0] at hp; exact w.dwf p (List.mem_filter.1 hp).1
-    have i0 : Inv st0 := by subst hst0; exact SameStore.inv ⟨rfl, rfl, rfl, rfl⟩ hi
+    have i0 : Inv st0 := by subst hst0; exact SameStore.inv ⟨rfl, rfl, rfl, rfl, rfl⟩ hi
     have hσx : st0.σ x = Term.num n := by rw [hσ0]; simp [bindS, hx, apply, sub1]
     have hdget : ∀ y, y ≠ x → st0.dget y = st.dget y := by
       intro y hyx
@@ -820,7 +820,15 @@ theorem runPlusFd_sem {self : Nat → Cst → State → Res State} (hss : SelfSe
           (interval_wfi _ _) (interval_wfi _ _) (interval_wfi _ _) fun a b c ma mb mc hr => ?_
         have := plus_bounds a b c umin umax vmin vmax wmin wmax (bu a ma) (bv b mb) (bw c mc) hr
         exact ⟨this.1, this.2.1, this.2.2⟩
-      · trivial
+      · -- min/max of well-formed domains are defined: the `fd-minmax` panic site is unreachable
+        rename_i hno
+        obtain ⟨a1, e1, _⟩ := min_spec ud (opDomain_walk_sem hI ws u hud).1
+        obtain ⟨a2, e2, _⟩ := max_spec ud (opDomain_walk_sem hI ws u hud).1
+        obtain ⟨b1, e3, _⟩ := min_spec vd (opDomain_walk_sem hI ws v hvd).1
+        obtain ⟨b2, e4, _⟩ := max_spec vd (opDomain_walk_sem hI ws v hvd).1
+        obtain ⟨c1, e5, _⟩ := min_spec wd (opDomain_walk_sem hI ws w hwd).1
+        obtain ⟨c2, e6, _⟩ := max_spec wd (opDomain_walk_sem hI ws w hwd).1
+        exact (hno a1 a2 b1 b2 c1 c2 e1 e2 e3 e4 e5 e6).elim
     · exact with_sem ord ws f rfl rfl
 
 theorem runMinusFd_sem {self : Nat → Cst → State → Res State} (hss : SelfSem self) {i : Nat}
@@ -842,7 +850,15 @@ theorem runMinusFd_sem {self : Nat → Cst → State → Res State} (hss : SelfS
           (interval_wfi _ _) (interval_wfi _ _) (interval_wfi _ _) fun a b c ma mb mc hr => ?_
         have := minus_bounds a b c umin umax vmin vmax wmin wmax (bu a ma) (bv b mb) (bw c mc) hr
         exact ⟨this.1, this.2.1, this.2.2⟩
-      · trivial
+      · -- min/max of well-formed domains are defined: the `fd-minmax` panic site is unreachable
+        rename_i hno
+        obtain ⟨a1, e1, _⟩ := min_spec ud (opDomain_walk_sem hI ws u hud).1
+        obtain ⟨a2, e2, _⟩ := max_spec ud (opDomain_walk_sem hI ws u hud).1
+        obtain ⟨b1, e3, _⟩ := min_spec vd (opDomain_walk_sem hI ws v hvd).1
+        obtain ⟨b2, e4, _⟩ := max_spec vd (opDomain_walk_sem hI ws v hvd).1
+        obtain ⟨c1, e5, _⟩ := min_spec wd (opDomain_walk_sem hI ws w hwd).1
+        obtain ⟨c2, e6, _⟩ := max_spec wd (opDomain_walk_sem hI ws w hwd).1
+        exact (hno a1 a2 b1 b2 c1 c2 e1 e2 e3 e4 e5 e6).elim
     · exact with_sem ord ws f rfl rfl
 
 omit hrc hrs in
@@ -869,7 +885,14 @@ theorem runTimesFd_sem {self : Nat → Cst → State → Res State} (hss : SelfS
         refine tri_narrow_sem hrc hrs ord hss hI ws f rfl rfl (fun a b c => a * b = c) (fun γ => Iff.rfl) hud hvd hwd
           hw3.1 hw3.2.1 hw3.2.2 fun a b c ma mb mc hr => ?_
         exact timesBounds_sound a b c umin umax vmin vmax wmin wmax (bu a ma) (bv b mb) (bw c mc) hr
-      · trivial
+      · rename_i hno
+        obtain ⟨a1, e1, _⟩ := min_spec ud (opDomain_walk_sem hI ws u hud).1
+        obtain ⟨a2, e2, _⟩ := max_spec ud (opDomain_walk_sem hI ws u hud).1
+        obtain ⟨b1, e3, _⟩ := min_spec vd (opDomain_walk_sem hI ws v hvd).1
+        obtain ⟨b2, e4, _⟩ := max_spec vd (opDomain_walk_sem hI ws v hvd).1
+        obtain ⟨c1, e5, _⟩ := min_spec wd (opDomain_walk_sem hI ws w hwd).1
+        obtain ⟨c2, e6, _⟩ := max_spec wd (opDomain_walk_sem hI ws w hwd).1
+        exact (hno a1 a2 b1 b2 c1 c2 e1 e2 e3 e4 e5 e6).elim
     · exact with_sem ord ws f rfl rfl
 
 end WithRC
@@ -1003,7 +1026,10 @@ theorem runLteFd_sem {self : Nat → Cst → State → Res State} (hss : SelfSem
           refine ⟨a', ha, (mud' a').2 ⟨ma, ?_⟩⟩
           have := hmax b mb
           simp only [decide_eq_false_iff_not]; omega
-    · trivial
+    · rename_i hno
+      obtain ⟨M, em, _⟩ := max_spec vdom hwv
+      obtain ⟨m, en, _⟩ := min_spec udom hwu
+      exact (hno M m em en).elim
   · -- u has a domain, v has none
     rename_i udom hu hv
     obtain ⟨x, hux, hxd⟩ := varDom_some hu
@@ -1126,7 +1152,7 @@ theorem bindNum_sem {st : State} (hI : IOK I st) (ws : WFS st) (hi : Inv st) {z 
   have hbo := bind_ok (t := Term.num n) ws.solved hz (by simp [Term.num, apply]) (by simp [Term.num, occurs])
   have w0 : WFS st0 := ⟨by rw [hσ0]; exact hbo.1, by rw [hd0]; exact ws.dnodup, by rw [hd0]; exact ws.dwf,
     by rw [hs0]; exact ws.nodist⟩
-  have i0 : Inv st0 := by subst hst0; exact SameStore.inv ⟨rfl, rfl, rfl, rfl⟩ hi
+  have i0 : Inv st0 := by subst hst0; exact SameStore.inv ⟨rfl, rfl, rfl, rfl, rfl⟩ hi
   have k0 : Keeps st st0 := by
     refine ⟨by rw [hσ0]; exact hbo.2.1, fun y hy => ?_, fun y _ _ hh => by unfold dget at *; rw [hd0]; exact hh,
       fun y hy => by rw [hσ0] at hy; exact bindS_bound ws.solved y hy,
@@ -1360,7 +1386,9 @@ theorem runDiseqFd_sem {i : Nat} {u v : Term} {st : State} (hI : IOK I st) (ws :
         obtain ⟨b, hb, mb⟩ := hnv
         exact ⟨a, b, ha, hb, by rw [hpu a ma, hqu b mb, ← hm1p, ← hm2q]; exact hne'⟩
     · split
-      · trivial
+      · rename_i hdis
+        obtain ⟨r, er, _⟩ := isDisjoint_spec ud vd hwu hwv
+        rw [hdis] at er; cases er
       · rename_i hdis
         obtain ⟨r, er, hr⟩ := isDisjoint_spec ud vd hwu hwv
         rw [hdis] at er; cases er
@@ -1444,7 +1472,7 @@ theorem fold_ref {α : Type} (f : State → α → Res State)
       rw [foldl_bind_fail]
       exact h1
     | fuel => rw [foldl_bind_fuel]; trivial
-    | panic s => rw [foldl_bind_panic]; trivial
+    | panic s => rw [hfa] at h1; exact h1.elim
 
 section WithRC
 variable {rc : State → Res State} (hrc : RcOK rc) (hrs : RcSem rc) {ord : Order} (ho : OrderOK ord)
@@ -1508,7 +1536,7 @@ theorem runSnapshot_sem {st : State} {snap : List (Nat × Cst)} (hI : IOK I st) 
       intro γ ⟨a, _⟩
       exact body γ ((hsem γ).1 a)
     | fuel => trivial
-    | panic s => trivial
+    | panic s => rw [hb] at body; exact body
   · rename_i st1 e
     have e1 : (cur.takeConstraint p.1).1 = st1 := by rw [e]
     have e2 : (cur.takeConstraint p.1).2 = none := by rw [e]
